@@ -54,6 +54,18 @@ Theorem decl_fixed_conforms :
 Proof. exact decl_fixed_conforms_lemma. Qed.
 Print Assumptions decl_fixed_conforms.
 
+(* The same with the NaN exclusion stated on the inputs: no fixed float value inside the
+   receiver ([schema_no_nan]) or inside the arguments, at any depth ([no_nan_args]), is NaN.
+   Then the result has the same property and accepts whatever fixed value it carries. *)
+Theorem decl_fixed_conforms_no_nan_args :
+  forall m s args s',
+  dsl_inv s = true -> schema_no_nan s = true -> args_inv args = true -> no_nan_args args = true ->
+  decl m s args = Ok s' ->
+  dsl_inv s' = true /\ schema_no_nan s' = true /\
+  forall v, fixed s' = Some v -> verdict s' v = true /\ conforms s' v.
+Proof. exact decl_fixed_conforms_nn_lemma. Qed.
+Print Assumptions decl_fixed_conforms_no_nan_args.
+
 Theorem run_dsl_inv :
   forall ops s s', dsl_inv s = true -> Forall (fun o : op => args_inv (snd o) = true) ops ->
   run ops s = Ok s' -> dsl_inv s' = true.
